@@ -218,6 +218,7 @@ static Result runCase(const Case& c) {
       std::map<int, std::vector<const ScatterCall*>> bySrc;
       for (auto& sc : h.scattered) {
         if (sc.n == 0 && sc.items.empty()) {
+          if (me == 0) stat("scatter_calls_with_count_0_on_rank0");
           // legal only for an index that expects no data from at least one neighbour
           bool okz = false;
           for (int q : c.present[me]) {
@@ -448,7 +449,7 @@ int main(int argc, char** argv) {
   std::vector<char*> av(argv, argv + argc);
   bool has = false;
   for (int i = 1; i < argc; ++i) if (!std::strcmp(argv[i], "--case-timeout")) has = true;
-  static char k[] = "--case-timeout", v[] = "30";
+  static char k[] = "--case-timeout", v[] = "20";
   if (!has) { av.push_back(k); av.push_back(v); }
   int rc = dv::runMpi((int)av.size(), av.data(), gen, exec);
   MPI_Finalize();
